@@ -569,6 +569,7 @@ fn cmd_xdec(args: &[String]) {
         few_caps: arg(args, "--fewcaps").unwrap_or("0") == "1",
         mixed: arg(args, "--mixed").unwrap_or("0") == "1",
         mixed_sink: arg(args, "--mixed").unwrap_or("0") == "1",
+        methods: vec![],
     };
     let t = Instant::now();
     println!("{} syms {} k {}", cfg.label(), cfg.syms.len(), k);
